@@ -25,7 +25,7 @@ type c06Cell struct {
 func c06Cells() []c06Cell {
 	var cells []c06Cell
 	for nExt := 0; nExt <= 2; nExt++ {
-		for point := 0; point < 6; point++ {
+		for point := 0; point < 7; point++ {
 			for kind := 0; kind < 3; kind++ {
 				cells = append(cells, c06Cell{nExt, 0, point, kind})
 			}
@@ -41,7 +41,7 @@ func c06Cells() []c06Cell {
 	return cells
 }
 
-var rtPointNames = []string{"before-first-poll", "after-init-error", "after-poll", "after-response", "idle", "inline-reinit"}
+var rtPointNames = []string{"before-first-poll", "after-init-error", "after-poll", "after-response", "idle", "inline-reinit", "launch-failure"}
 var extPointNames = []string{"before-register", "after-register", "after-first-event", "after-init-error", "after-exit-error", "launch-failure"}
 
 func exitCode(kind int, t *Tape) int {
@@ -113,6 +113,12 @@ func scenC06(r *Run, job *Job) {
 	exitErrEarly := t.Chance(1, 2)
 	if cell.party == 0 {
 		desc = "runtime " + rtPointNames[cell.point]
+		if cell.point == 6 {
+			// the runtime cannot be launched at all (entry point missing, not executable, not a program): no process and
+			// no exit notification, in any generation
+			errs := []error{os.ErrPermission, os.ErrNotExist, errors.New("exec format error")}
+			w.Sup.ExecFail["runtime-"] = errs[cell.kind]
+		}
 	} else {
 		desc = fmt.Sprintf("ext e%d %s", cell.party, extPointNames[cell.point])
 		if cell.point == 5 {
@@ -317,6 +323,11 @@ func judgeHistory(r *Run, w *World, e *Engine, prop string, o judgeOpts) {
 		isTimeout := st == 200 && string(body) == timeoutBody
 		if isTimeout && !o.timeoutOK && len(mine) == 0 {
 			r.Failf(prop+".unexpected-timeout", "invocation %d timed out although no party stalled", inv.N)
+		}
+		if isTimeout && !o.timeoutOK && len(mine) > 0 {
+			// no party of this scenario ever stalls: an invocation hit by a fault that ends in the function timeout was
+			// left hanging instead of being answered with the failure
+			r.Failf(prop+".left-hanging", "invocation %d hit by %s (step %d) was left hanging until the function timeout (answered at step %d)", inv.N, mine[0].typ, mine[0].step, inv.Call.EndStep)
 		}
 		if len(mine) == 0 && !isTimeout {
 			// healthy invocation: judged exactly
